@@ -203,6 +203,8 @@ def run(ctx) -> Result:
     res.check(st == "ok" and w.raw_dataset(sp) == want, "U5", "Dataset.sub_problem_from_ids",
               proj.method(w.D, "sub_problem_from_ids").loc(), ok_detail="ids decoded through the dataset's own id map",
               bad_detail=f"ids {ids} ({keep}) give {w.raw_dataset(sp) if st == 'ok' else sp}, expected {want}")
+    from . import C10
+    C10.check_unified(res, proj, "U5")
     res.not_decided.append("value-level agreement of the views for histories longer than the explored bound (each step "
                            "re-establishes the invariants from the rankings alone, which is what the bound exercises)")
     return res
@@ -237,6 +239,9 @@ def _history_worker(job):
         st, d = w.safe("Dataset()", w.dataset, raws)
         if st != "ok":
             return 0, {}          # reported by the construction obligation
+        # read every view once before mutating: a view cached on first use must not survive a mutation
+        for view in ("get_positions", "get_bucket_ids", "unified_rankings"):
+            w.safe(view, w.call, d, view)
         cur = [[set(b) for b in r] for r in want0]
         hist = []
         for op, arg in seq:
